@@ -146,6 +146,15 @@ func CheckTiling(c *core.Check, src []byte, start hcl.Pos, bounds map[int]hcl.Po
 	return true
 }
 
+// SourceOf instantiates the class string of an MC_C14 state (for other checks that only need the bytes).
+func SourceOf(st core.State) []byte {
+	var sb strings.Builder
+	for _, cl := range tla.Strs(st.Vars["s"]) {
+		sb.WriteString(rep[cl])
+	}
+	return []byte(sb.String())
+}
+
 func Handle(c *core.Check, st core.State) {
 	classes := tla.Strs(st.Vars["s"])
 	if len(classes) == 0 {
